@@ -269,12 +269,52 @@ def r08d(model, ctx):
               f"{[unparse(l.iter) for l in loops]}", f"{PYSIM}:{fa.lineno}")
     # R-08f part: rescan whenever a testbench ran
     if loops:
+        from ..engine.symx import subst, fold_const
+        from ..engine.astutil import parent_map
         paths = _loop_paths(model, loops[0])
         ok, n_run = _run_once_ok(paths, "testbench")
+        # a flag that every running path sets to one constant ...
+        flags = None
         for p in paths:
             if _runs(p, "testbench") is not None:
-                cv = p.env.get("converged")
-                ok = ok and isinstance(cv, ast.Constant) and cv.value is False
+                consts = {k: v.value for k, v in p.env.items() if isinstance(v, ast.Constant) and isinstance(v.value, bool)
+                          and not k.startswith("__inl")}
+                flags = consts if flags is None else {k: v for k, v in flags.items() if consts.get(k) == v}
+        need(flags is not None, "advance: no path of the testbench loop runs a testbench")
+        # ... and with that value the enclosing `while` goes round again: its test is true and no `break` after the scan
+        pm_ = parent_map(fa)
+        w = pm_.get(loops[0])
+        while w is not None and not isinstance(w, ast.While):
+            w = pm_.get(w)
+        need(w is not None, "advance: the testbench scan is not inside a while loop")
+        rescan = False
+        for name, val in flags.items():
+            env1 = {name: ast.Constant(value=val)}
+            t = fold_const(subst(w.test, env1))
+            again = isinstance(t, ast.Constant) and bool(t.value)
+            idx = [i for i, x in enumerate(w.body) if x is loops[0]]
+            if not idx:
+                continue
+            for st in w.body[idx[0] + 1:]:
+                if isinstance(st, ast.If) and any(isinstance(x, ast.Break) for x in ast.walk(st)):
+                    tt = fold_const(subst(st.test, env1))
+                    taken = not (isinstance(tt, ast.Constant) and not tt.value)
+                    if taken and any(isinstance(x, ast.Break) for b_ in st.body for x in ast.walk(b_)):
+                        again = False
+                    if isinstance(tt, ast.Constant) and not tt.value and any(isinstance(x, ast.Break) for b_ in st.orelse for x in ast.walk(b_)):
+                        again = False
+            # the flag must matter: with the opposite value the loop would stop
+            env0 = {name: ast.Constant(value=not val)}
+            t0 = fold_const(subst(w.test, env0))
+            stops = isinstance(t0, ast.Constant) and not t0.value
+            for st in w.body[idx[0] + 1:]:
+                if isinstance(st, ast.If) and any(isinstance(x, ast.Break) for b_ in st.body for x in ast.walk(b_)):
+                    tt = fold_const(subst(st.test, env0))
+                    if isinstance(tt, ast.Constant) and tt.value:
+                        stops = True
+            if again and stops:
+                rescan = True
+        ok = ok and rescan
         ctx.check(ok, "R-08f", "advance:rescan-after-any-run", "converged = False whenever a testbench ran",
                   "whenever a testbench ran (whether or not it is still waiting afterwards) the list must be scanned "
                   "again before time advances: its last write may have woken an earlier testbench", f"{PYSIM}:{loops[0].lineno}")
